@@ -116,6 +116,11 @@ var c03Seeds = []string{
 	"var a int = 5; var b float64 = 2.5; var s string = \"x\"; a, b, s",
 	"for i := 0; i < 3; i++ { if i == 1 { continue }; print(i) }",
 	"s := \"héllo\"; for i, r := range s { _ = i; _ = r }; len(s)",
+	// terminating scripts that build cyclic data and print it
+	"s := []any{1, 2}; s[0] = s; println(s); s",
+	"import \"fmt\"\nm := map[string]any{\"a\": 1}\nm[\"self\"] = m\ns := []any{m}\nm[\"s\"] = s\nfmt.Println(m, s)\nx := \"v=\" + fmt.Sprint(s)\nx\n",
+	"package main\nimport \"fmt\"\ntype Node struct {\n\tnext *Node\n\tkids []any\n}\nfunc main() {\n\ta := &Node{}\n\tb := &Node{next: a}\n\ta.next = b\n\ta.kids = []any{a, []any{b}}\n\tfmt.Println(a)\n\tprintln(a.kids)\n}\n",
+	"a := []any{0}; b := []any{a}; c := []any{b}; d := []any{c}; a[0] = d; print(a, b, c, d); panic(d)",
 }
 
 // ---- mutators ------------------------------------------------------------------------------------------
@@ -297,6 +302,21 @@ var c03Muts = []c03Mut{
 			toks[pick(r, ids)] = pick(r, c03TypeNames)
 		}
 		return c03Join(toks)
+	}},
+	{"mut-splice-cyclic", func(r *rng, src string) string {
+		setup, vars := c03CyclicSetup(r, r.intn(1000))
+		frag := setup + c03CyclicRoute(r, pick(r, vars), strings.Contains(src, "\"fmt\""), false)
+		if k := strings.Index(src, "func main() {\n"); k >= 0 && r.chance(70) {
+			k += len("func main() {\n")
+			return src[:k] + strings.ReplaceAll(frag, "; ", "\n") + "\n" + src[k:]
+		}
+		if strings.HasPrefix(src, "package ") {
+			return src + "\nfunc cycShow() {\n" + frag + "\n}\nfunc init() { cycShow() }\n"
+		}
+		if r.chance(50) {
+			return src + "\n" + frag + "\n"
+		}
+		return frag + "\n" + src
 	}},
 	{"mut-importalias", func(r *rng, src string) string {
 		p := pick(r, []string{`"lib"`, `"fmt"`, `"\400"`, `"\ud800"`, `"a/../lib"`, `""`, `"*"`, `"lib["`, `"cyc1"`, `"missing/pkg"`, "`lib`", `"bad"`, `"emptyp"`, `"./lib"`, `"lib/"`, `"\x00"`, `"conf"`})
@@ -630,4 +650,120 @@ func c03GenLoad(r *rng, c *c03Corpus) (files map[string]string, arg string, clas
 		class = "load-valid"
 	}
 	return files, arg, class
+}
+
+// ---- cyclic data ---------------------------------------------------------------------------------------------
+// Terminating scripts that build a value containing itself and hand it to a stringer.  Go's own fmt detects
+// such cycles only for pointers; goatlang's Value.String must stay bounded on them: a runaway recursion there
+// is Go's fatal stack overflow, not a recoverable panic.
+
+// c03CyclicSetup returns statements (separated by "; ") that build cyclic data, and the variables that hold it.
+func c03CyclicSetup(r *rng, id int) (string, []string) {
+	v := func(n string) string { return fmt.Sprintf("%s%d", n, id) }
+	switch r.intn(14) {
+	case 0: // a slice that contains itself
+		return fmt.Sprintf("%s := []any{1, 2}; %s[0] = %s; ", v("cs"), v("cs"), v("cs")), []string{v("cs")}
+	case 1: // two slices containing each other
+		return fmt.Sprintf("%s := []any{1}; %s := []any{%s, 2}; %s[0] = %s; ", v("ca"), v("cb"), v("ca"), v("ca"), v("cb")), []string{v("ca"), v("cb")}
+	case 2, 3: // a cycle through k nested slices, k = 1..4
+		k := 1 + r.intn(4)
+		var sb strings.Builder
+		names := []string{v("c0_")}
+		fmt.Fprintf(&sb, "%s := []any{0, \"x\"}; ", names[0])
+		for i := 1; i <= k; i++ {
+			n := fmt.Sprintf("%s%d_", v("c"), i)
+			fmt.Fprintf(&sb, "%s := []any{%s}; ", n, names[i-1])
+			names = append(names, n)
+		}
+		fmt.Fprintf(&sb, "%s[0] = %s; ", names[0], names[k])
+		return sb.String(), names
+	case 4: // typed slice of slices
+		return fmt.Sprintf("%s := [][]any{{1}, {2}}; %s[0][0] = %s; ", v("cq"), v("cq"), v("cq")), []string{v("cq")}
+	case 5: // literal nesting, then the cycle at depth 3
+		return fmt.Sprintf("%s := []any{[]any{[]any{0}}}; %s := []any{%s}; %s[0] = %s; ", v("cd"), v("ce"), v("cd"), v("cd"), v("ce")), []string{v("cd"), v("ce")}
+	case 6: // a map that contains itself
+		return fmt.Sprintf("%s := map[string]any{\"a\": 1}; %s[\"self\"] = %s; ", v("cm"), v("cm"), v("cm")), []string{v("cm")}
+	case 7: // int-keyed map
+		return fmt.Sprintf("%s := map[int]any{}; %s[1] = %s; ", v("ci"), v("ci"), v("ci")), []string{v("ci")}
+	case 8: // a struct whose field points to itself
+		return fmt.Sprintf("type CycN%d struct { next any; v int }; %s := &CycN%d{v: 1}; %s.next = %s; ", id, v("cn"), id, v("cn"), v("cn")), []string{v("cn")}
+	case 9: // a ring of structs
+		return fmt.Sprintf("type CycR%d struct { next *CycR%d; v int }; %s := &CycR%d{v: 1}; %s := &CycR%d{v: 2}; %s := &CycR%d{v: 3}; %s.next = %s; %s.next = %s; %s.next = %s; ",
+			id, id, v("ra"), id, v("rb"), id, v("rc"), id, v("ra"), v("rb"), v("rb"), v("rc"), v("rc"), v("ra")), []string{v("ra"), v("rb")}
+	case 10: // slice <-> map
+		return fmt.Sprintf("%s := []any{1}; %s := map[string]any{}; %s[\"s\"] = %s; %s[0] = %s; ", v("xs"), v("xm"), v("xm"), v("xs"), v("xs"), v("xm")), []string{v("xs"), v("xm")}
+	case 11: // struct <-> slice <-> map
+		return fmt.Sprintf("type CycM%d struct { items []any; m map[string]any }; %s := &CycM%d{items: []any{1, 2}, m: map[string]any{}}; %s.items[0] = %s; %s.m[\"o\"] = %s.items; ",
+			id, v("mo"), id, v("mo"), v("mo"), v("mo"), v("mo")), []string{v("mo"), v("mo") + ".items", v("mo") + ".m"}
+	case 12: // built with append
+		return fmt.Sprintf("%s := []any{1}; %s = append(%s, %s); %s[0] = %s; ", v("ap"), v("ap"), v("ap"), v("ap"), v("ap"), v("ap")), []string{v("ap")}
+	default: // a slice of slices holding a map holding the outer slice
+		return fmt.Sprintf("%s := []any{[]any{map[string]any{}}}; %s := []any{%s, %s}; %s[0] = %s; ", v("so"), v("sp"), v("so"), v("so"), v("so"), v("sp")), []string{v("so"), v("sp")}
+	}
+}
+
+var c03ErrorsOK = false // set while generating a script that imports "errors"
+
+// c03CyclicRoute renders the variable through one stringer route.  value = the route may end the script with
+// the value itself (it is then returned to the host, which prints it).
+func c03CyclicRoute(r *rng, x string, fmtOK bool, value bool) string {
+	routes := []string{"println(%s)", "print(%s)", "println(1, %s, \"z\")", "panic(%s)"}
+	if fmtOK {
+		routes = append(routes, "fmt.Println(%s)", "fmt.Print(%s)", "println(fmt.Sprintf(\"%%v|%%s|%%d\", %[1]s, %[1]s, %[1]s))", "cy_ := fmt.Sprint(%s); _ = cy_",
+			"cy_ := \"a\" + fmt.Sprint(%s) + \"b\"; println(cy_)", "cy_ := fmt.Sprintf(\"%%v\", %s); println(len(cy_))", "panic(fmt.Sprint(%s))", "panic(\"p \" + fmt.Sprint(%s))")
+	}
+	if fmtOK && c03ErrorsOK {
+		routes = append(routes, "cye_ := errors.New(fmt.Sprint(%s)); println(cye_)", "cye_ := errors.New(fmt.Sprint(%s)); panic(cye_)")
+	}
+	if value {
+		routes = append(routes, "%s", "%[1]s, %[1]s", "1, %s", "[]any{%s}")
+	}
+	return fmt.Sprintf(pick(r, routes), x)
+}
+
+// c03CyclicEval: a whole script for Eval
+func c03CyclicEval(r *rng) string {
+	var sb strings.Builder
+	sb.WriteString(pick(r, []string{"import \"fmt\"\nimport \"errors\"\n", "import (\n\t\"fmt\"\n\t\"errors\"\n)\n", "package main\nimport \"fmt\"\nimport \"errors\"\n"}))
+	c03ErrorsOK = true
+	defer func() { c03ErrorsOK = false }()
+	setup, vars := c03CyclicSetup(r, r.intn(100))
+	sep := pick(r, []string{"; ", "\n"})
+	sb.WriteString(strings.ReplaceAll(setup, "; ", sep))
+	x := pick(r, vars)
+	// functions the host can call afterwards: one returns the value, one prints it
+	fmt.Fprintf(&sb, "func cycGet() any { return %s }%sfunc cycShow() { %s }%s", x, sep, c03CyclicRoute(r, x, true, false), sep)
+	for k := r.intn(3); k > 0; k-- {
+		sb.WriteString(c03CyclicRoute(r, pick(r, vars), true, false) + sep)
+	}
+	sb.WriteString(c03CyclicRoute(r, pick(r, vars), true, true))
+	return sb.String()
+}
+
+// c03CyclicLoad: package main for Load; the cyclic value is rendered at top level, in main / cycShow, returned by
+// cycGet, or left on the stack by the package's top-level code ("unexpected returns: %v")
+func c03CyclicLoad(r *rng) string {
+	var sb strings.Builder
+	sb.WriteString("package main\nimport \"fmt\"\nimport \"errors\"\n")
+	c03ErrorsOK = true
+	defer func() { c03ErrorsOK = false }()
+	setup, vars := c03CyclicSetup(r, r.intn(100))
+	body := strings.ReplaceAll(setup, "; ", "\n")
+	x := pick(r, vars)
+	switch r.intn(4) {
+	case 0: // everything at top level, a value left over
+		sb.WriteString(body)
+		fmt.Fprintf(&sb, "func cycGet() any { return %s }\nfunc cycShow() { %s }\nfunc main() { cycShow() }\n", x, c03CyclicRoute(r, x, true, false))
+		sb.WriteString(pick(r, []string{x, "1, " + x, "[]any{" + x + "}"}) + "\n")
+	case 1: // top-level rendering
+		sb.WriteString(body)
+		fmt.Fprintf(&sb, "func cycGet() any { return %s }\nfunc cycShow() { %s }\nfunc main() { cycShow() }\n", x, c03CyclicRoute(r, x, true, false))
+		sb.WriteString(c03CyclicRoute(r, pick(r, vars), true, false) + "\n")
+	case 2: // inside init
+		fmt.Fprintf(&sb, "func init() {\n%s%s\n}\nfunc main() {}\n", body, c03CyclicRoute(r, x, true, false))
+	default: // only when the host calls
+		fmt.Fprintf(&sb, "func build() any {\n%sreturn %s\n}\nfunc cycGet() any { return build() }\nfunc cycShow() { cy := build(); %s }\nfunc main() { cycShow() }\n",
+			body, x, c03CyclicRoute(r, "cy", true, false))
+	}
+	return sb.String()
 }
